@@ -63,7 +63,8 @@ fn umv_component_bits(rng: &mut Rng, style: u8) -> Vec<(u32, u8)> {
 fn adversarial(rng: &mut Rng, g: &mut DecGen, note: &mut String) -> PicSpec {
     let ptype = if g.has_ref && rng.chance(2, 3) { PType::P } else { PType::I };
     let mut s = gen_picture(rng, &g.cfg, g.fl.clone(), ptype, g.w, g.h, g.tr);
-    let kind = if g.hdr_bias { 12 } else { rng.below(15) };
+    // header-context bias: PLUSPTYPE header variety (12) or optional-mode bits in a plain PTYPE (8)
+    let kind = if g.hdr_bias { *rng.pick(&[12u64, 8]) } else { rng.below(15) };
     match kind {
         0 => {
             *note = "adversarial: more macroblocks than the picture holds".into();
@@ -410,6 +411,8 @@ pub fn gen_session(rng: &mut Rng, mix: &Mix) -> Session {
             &[0, 1, 2, 3, 4] // occasionally the wrong flavour for the mode
         } else if sorenson {
             &[0, 1, 2]
+        } else if mix.hdr_bias {
+            &[3, 3, 4] // the fixed formats a plain PTYPE can name
         } else {
             &[3, 4, 4]
         };
